@@ -147,9 +147,9 @@ let control_select (fs : string list) : string =
     Printf.sprintf "n=%d|source=%s|binaries=%s" (L.length ps) src bins
 
 let accessor_table (_ : string list) : string =
-  cat "," (L.filter_map (fun r ->
-    let role = match r.r_role with RGetter -> Some "RGetter" | RSetter -> Some "RSetter" | ROther -> None in
-    match role with Some ro -> Some (plain r.r_ty ^ "." ^ plain r.r_method ^ "." ^ ro) | None -> None) Accessors_gen.table)
+  cat "," (L.map (fun r ->
+    let role = match r.r_role with RGetter -> "RGetter" | RSetter -> "RSetter" | ROther -> "ROther" in
+    plain r.r_ty ^ "." ^ plain r.r_method ^ "." ^ role) Accessors_gen.table)
 
 let () = register "accessor" accessor
 let () = register "accessor-any" accessor
